@@ -22,9 +22,13 @@ PROP = 'C05'
 def make(ctx, conv, bounds_coords=False):
     builders.BOUNDS_AS_COORDS = bounds_coords
     try:
-        return _make(ctx, conv)
+        ds, cv, info = _make(ctx, conv)
     finally:
         builders.BOUNDS_AS_COORDS = False
+    # the cells that can be selected are the cells the dataset describes
+    from harness import geomref
+    geomref.check(ctx, ds, cv, kind=conv)
+    return ds, cv, info
 
 
 def _make(ctx, conv):
@@ -94,7 +98,8 @@ def _make(ctx, conv):
                 'single': (('one', 'nface'), sym('single', (1, len(faces)))),
                 'single_node': (('nnode', 'one'), sym('sn', (len(nodes), 1))),
                 'clock': (('t',), numpy.array([5.0, 6.0]))}
-        ds = builders.ugrid(mesh, supply=('edge_node',), data_vars=data)
+        # one-based integer tables with the fill value kept as an attribute (mask_and_scale=False / built in memory)
+        ds = builders.ugrid(mesh, supply=('edge_node',), data_vars=data, start_index=1, fill='attr')
         cv = UGrid(ds)
         info = dict(kinds={'face': (('nface',), (len(faces),)), 'edge': (('nedge',), (ne,)), 'node': (('nnode',), (len(nodes),))},
                     geometry=['mesh', 'face_node', 'node_x', 'node_y', 'edge_node'])
@@ -202,6 +207,42 @@ def body_indexes(ctx, conv, kind, nreq, mode, bounds_coords=False):
             ctx.check(False, 'indexes of different grid kinds are refused')
     else:
         raise ValueError(mode)
+
+
+def body_twisted(ctx, conv):
+    """A grid with a missing cell *before* a self-intersecting one: the cells that answer point selections are the
+    complete, valid cells - each returns its own values, the other two return nothing."""
+    from emsarray.conventions.grid import CFGrid2D
+    from emsarray.conventions.shoc import ShocSimple
+    from harness import geomref
+    ny, nx = 2, 3
+    jj, ii = numpy.meshgrid(numpy.arange(ny, dtype=float), numpy.arange(nx, dtype=float), indexing='ij')
+    lat, lon = 10.0 + jj, 100.0 + 2 * ii
+    lonb = numpy.stack([lon - 1, lon + 1, lon + 1, lon - 1], axis=-1)
+    latb = numpy.stack([lat - .5, lat - .5, lat + .5, lat + .5], axis=-1)
+    lonb[0, 0] = numpy.nan
+    latb[0, 0] = numpy.nan
+    lonb[1, 0] = lonb[1, 0][[0, 2, 1, 3]]
+    latb[1, 0] = latb[1, 0][[0, 2, 1, 3]]
+    vals = numpy.empty((ny, nx), dtype=object if ctx.symbolic else float)
+    for k, idx in enumerate(numpy.ndindex(ny, nx)):
+        vals[idx] = ctx.real(f'v{k}', nan=True, hint=50.0 + k)
+    yd, xd = ('y', 'x') if conv == 'cf2d' else ('j', 'i')
+    build = builders.cf2d if conv == 'cf2d' else builders.shoc_simple
+    ds = build(ny, nx, lat=lat, lon=lon, lat_bounds=latb, lon_bounds=lonb, data_vars={'temp': ((yd, xd), vals)})
+    cv = (CFGrid2D if conv == 'cf2d' else ShocSimple)(ds)
+    geomref.check(ctx, ds, cv, kind=conv)
+    for n in range(ny * nx):
+        j, i = divmod(n, nx)
+        pt = shapely.Point(float(lon[j, i]) + 0.25, float(lat[j, i]) + 0.125)     # inside the nominal rectangle of cell n
+        alive = (j, i) not in ((0, 0), (1, 0))
+        try:
+            got = cv.select_point(pt)
+        except ValueError:
+            ctx.check(not alive, 'a point in a cell that has geometry is found')
+            continue
+        ctx.check(alive, 'a point in a cell without geometry (missing or self-intersecting) selects nothing')
+        ctx.check(same(got['temp'].values[()], vals[j, i]), 'the point returns the values stored at its own cell')
 
 
 class OutcomeTree:
@@ -347,6 +388,8 @@ CONVS = {'cf1d': ['face'], 'cf2d': ['face'], 'shoc_simple': ['face'],
 
 def cases(tier):
     q = tier == 'quick'
+    for conv in ('cf2d', 'shoc_simple'):
+        yield Case(f'twisted:{conv}', body_twisted, dict(conv=conv), max_paths=50)
     # stored bounds held as xarray coordinates are still geometry: absent from every selection
     for conv in ('cf2d', 'shoc_simple'):
         yield Case(f'index:{conv}:face:select_indexes2:bounds-as-coordinates', body_indexes,
